@@ -133,6 +133,7 @@ def finish(ctx, res, level, new, known, replayed, mismatches, coverage_extra, as
     cov.update(agg)
     cov["functions_encoded"] = runner.funcs_encoded(res)
     cov["solver"] = res.get("solver")
+    cov["solver_diff"] = res.get("solver_diff", "not run in this tier (thorough tier or VERIF_SOLVER_DIFF=1)")
     cov["engine_limits"] = res.get("limits")
     cov["known_findings_matched"] = known
     cov["engine_native_mismatches"] = mismatches
